@@ -90,7 +90,7 @@ PROPS["C12"] = dict(
          "iteration forms are compared with a std::vector<bool> reference. Non-trivial = the sequence addresses a "
          "position >= the current size, shifts by >= the size, or combines bitsets of different sizes; distinct by hash "
          "of the serialised case.",
-    require_classes=dict(all=["position_size_max", "growth", "shift_by_size_or_more", "binary_op_different_sizes", "const_access_beyond_size"]
+    require_classes=dict(all=["position_size_max", "position_huge", "growth", "shift_by_size_or_more", "binary_op_different_sizes", "const_access_beyond_size"]
                          + ["op." + n for n in ("set_all", "set_pos", "reset_all", "reset_pos", "flip_all", "flip_pos",
                                                  "idx_write", "idx_read", "resize", "and_assign", "or_assign",
                                                  "xor_assign", "shl", "shr", "assign_vector", "assign_bitset", "invert",
